@@ -301,9 +301,22 @@ def enum_key_paths(cname):
 
 
 def _enum_any(job):
-    if isinstance(job, str):
-        return enum_key_paths(job)
-    return enum_order(job)
+    try:
+        if isinstance(job, str):
+            return enum_key_paths(job)
+        return enum_order(job)
+    except Exception as ex:
+        # an exception raised inside the library during the enumeration is
+        # the sampler failing on valid use, not a harness error
+        lv = core.library_exception(ID, ex)
+        if lv is None:
+            raise
+        res = dict(order=job if not isinstance(job, str) else 0, leaves=0,
+                   size=0, rejected=0, violation=(
+                       "exception-" + type(ex).__name__, lv["msg"]))
+        if isinstance(job, str):
+            res.update(kind="key_paths", curve=job)
+        return res
 
 
 def _outcome(lu, n, script):
